@@ -389,4 +389,57 @@ theorem resultOf_of_mem {rs : List (Nat × Resp)} {k : Nat} {v : Resp} (h : (k, 
   simp only [resultOf, Option.isSome_map, List.find?_isSome]
   exact ⟨(k, v), h, by simp⟩
 
+/-! ### the server is local to a connection -/
+/-- the server's actions on connection `ci` -/
+def Act.server (ci : Nat) : Act → Bool
+  | .srvRecv c | .finish c _ | .respond c => c == ci
+  | _ => false
+
+/-- The server keeps no state across connections and none about the client: a server action on
+    connection `ci` changes nothing but that connection (and ghost state) … -/
+theorem server_local_effect (c : Cfg) (s s' : State) (a : Act) (ci : Nat) (ha : a.server ci = true)
+    (hs : step c s a = some s') :
+    s'.pending = s.pending ∧ s'.active = s.active ∧ s'.results = s.results ∧ s'.reqs = s.reqs ∧
+    s'.tasks = s.tasks ∧ s'.sout = s.sout ∧ ∀ cj, cj ≠ ci → s'.conns[cj]? = s.conns[cj]? := by
+  have hst := step_sound c s s' a hs
+  cases hst <;> simp [Act.server] at ha <;> subst ha <;>
+    exact ⟨rfl, rfl, rfl, rfl, rfl, rfl, fun cj hj => get_set_other hj⟩
+
+/-- … and whether it is enabled and what it does to the connection depends on that connection only. -/
+theorem server_local_cause (c : Cfg) (s1 s2 : State) (a : Act) (ci : Nat) (ha : a.server ci = true)
+    (heq : s1.conns[ci]? = s2.conns[ci]?) :
+    (step c s1 a).bind (fun s => s.conns[ci]?) = (step c s2 a).bind (fun s => s.conns[ci]?) := by
+  cases hc : s1.conns[ci]? with
+  | none =>
+    have hc2 : s2.conns[ci]? = none := by rw [← heq, hc]
+    cases a <;> simp [Act.server] at ha <;> subst ha <;> simp [step, hc, hc2]
+  | some cn =>
+    have hc2 : s2.conns[ci]? = some cn := by rw [← heq, hc]
+    cases a <;> simp [Act.server] at ha <;> subst ha
+    · -- srvRecv
+      simp only [step, hc, hc2]
+      cases cn.wire with
+      | nil => simp
+      | cons m rest =>
+        by_cases hcap : cn.srvq.length < c.srvCap
+        · simp [hcap, get_set_same hc, get_set_same hc2]
+        · simp [hcap]
+    · -- finish
+      rename_i j
+      simp only [step, hc, hc2]
+      cases cn.srvq[j]? with
+      | none => simp
+      | some t =>
+        by_cases hd : t.done = true
+        · simp [hd]
+        · simp [hd, get_set_same hc, get_set_same hc2]
+    · -- respond
+      simp only [step, hc, hc2]
+      cases cn.srvq with
+      | nil => simp
+      | cons t rest =>
+        by_cases hd : t.done = true ∧ cn.back.length < c.backCap
+        · simp [hd, get_set_same hc, get_set_same hc2]
+        · simp [hd]
+
 end Mux
